@@ -25,7 +25,7 @@ RULE = (
     "simulator built from the request multiset; a state is the canonical multiset of requested edges; non-trivial = the "
     "synapses change the voltages by > 1e-6 mV relative to the unconnected network"
 )
-REQUIRED_COVER = ["parameters_set_between_connects", "many_edges_interleaved", "autapse", "fan_in", "interleaved_types", "post_area_distinct", "same_cell_pair",
+REQUIRED_COVER = ["silenced_through_views_after_a_simulation", "parameters_set_between_connects", "many_edges_interleaved", "autapse", "fan_in", "interleaved_types", "post_area_distinct", "same_cell_pair",
                   "accepted:jaxley.stone", "accepted:jaxley.thomas", "accepted:jax.sparse",
                   "api:type_view", "api:global_edge", "api:select_edges", "zero_g"]
 ASSUMPTIONS = [
@@ -232,6 +232,27 @@ def run_history(netname, seq, forms, want_zero=True, nsteps=NSTEPS, incremental=
                     viol("zero_g_not_isolated", backend, f"max dev from unconnected={err0}")
         if not zero_g and moved > 1e-6:
             out["digests"].append(digest(sorted(seq)) + ":" + netname)
+        if not zero_g and seq and len(seq) <= 3 and not incremental:
+            # the SAME network object, after it was simulated: silence every synapse through its synapse-type view and simulate
+            # again -- every cell must now behave as if simulated alone (values set through views must reach the next simulation)
+            try:
+                for t in sorted(set(t for _, _, t in seq)):
+                    gkey = [k for k in _edge_values("A", "B", t) if k.endswith(("_gS", "_gC"))]
+                    for k in gkey:
+                        getattr(net, TYPES[t]).set(k, 0.0)
+                for backend in BACKENDS:
+                    try:
+                        vs, _ = build.eager_step(net, "bwd_euler", backend, DT, nsteps=nsteps)
+                    except AssertionError:
+                        continue
+                    out["evals"] += 1
+                    out["cover"].append("silenced_through_views_after_a_simulation")
+                    err0 = float(np.max(np.abs(np.asarray(vs) - ref0)))
+                    if not np.isfinite(err0) or err0 > 1e-10:
+                        viol("zero_g_not_isolated", backend, f"network re-used after a simulation, conductances set to 0 through type views: max dev from unconnected={err0}")
+                    break
+            except Exception as e:
+                viol("connect_or_set_raised", "-", f"silencing through type views: {type(e).__name__}: {e}")
     if feats["autapse"]:
         out["cover"].append("autapse")
     if feats["fan_in"]:
